@@ -844,6 +844,7 @@ fn run_lockstep_inner(cfg: &ScenCfg, out: &mut RunOut, rtu: bool) {
         simtokio::serial::add_line(RTU_PATH, simtokio::serial::OpenOutcome::Ok, true);
         let rig = start_rtu_client(baud, (retry_min, retry_max), decode, qcap);
         let mut m = ClientModel::new(Transport::Rtu, Retry::new(retry_min, retry_max), None);
+        m.impl_port_closes = Some(|| simtokio::serial::closes(RTU_PATH).len());
         m.t35 = t35_ns(baud);
         (rig, m, Link::Rtu { open: false, opens_seen: 0, closes_seen: 0 })
     } else {
@@ -1325,6 +1326,9 @@ fn run_lockstep_inner(cfg: &ScenCfg, out: &mut RunOut, rtu: bool) {
     }
     if l.frames_tx > 65_536 {
         out.probe("txid_wrap");
+    }
+    if l.model.bad_crc_frames_skipped > 0 {
+        out.probe_n("rtu_bad_crc_frame_skipped_by_impl", l.model.bad_crc_frames_skipped);
     }
     out.nontrivial = if out.ops_checked > 0 { Some(wl_hash ^ (trace.len() as u64) << 50) } else { None };
     out.sample = Some(json!({"scenario": if rtu { "rtu client lock-step" } else { "tcp client lock-step" }, "variant": cfg.variant, "decode_level_index": dec_idx,
